@@ -518,7 +518,12 @@ class Engine:
         if fill is not None:
             fz = self.coerce(fill, elem) if fill.kind != elem else fill.z
             if elem == "int" and fill.kind == "float": raise Unsupported("float fill into int array")
-            init = z3.K(I, fz) if len(dims) == 1 else z3.K(I, z3.K(I, fz))
+            if z3.is_const(fz) and fz.decl().kind() == z3.Z3_OP_UNINTERPRETED:
+                # a symbolic fill value (np.full(n, null_value)): SMT-LIB constant arrays need a literal, so define the array by a quantified fact (portable to cvc5)
+                init = self.fc("full1", z3.ArraySort(I, sort_of(elem))); a_ = z3.Int(f"a?{next(self.fresh)}")
+                st.pc.append(z3.ForAll([a_], z3.Select(init, a_) == fz, patterns=[z3.Select(init, a_)]))
+            else:
+                init = z3.K(I, fz) if len(dims) == 1 else z3.K(I, z3.K(I, fz))
             if len(dims) == 2:
                 init = self.fc("full2", z3.ArraySort(I, I, sort_of(elem)))
                 a, b = z3.Ints(f"a?{next(self.fresh)} b?{next(self.fresh)}")
